@@ -223,6 +223,12 @@ def finish(ctx, t0):
         json.dump(doc, f, indent=1)
     C.log(f'[{pid}] obligations {discharged}/{obligations}, evaluations {evaluations}, violations {len(ctx.violations)}, {doc["wall_s"]}s')
     if ctx.violations:
+        seen = set()
+        uniq = []
+        for v in ctx.violations:
+            if v[0] not in seen:
+                seen.add(v[0]); uniq.append(v)
+        ctx.violations = uniq
         for path, nofail, summary in ctx.violations:
             C.log('  ' + summary)
             print(f'VIOLATION property={pid} replay={path}' + (' no-failing-input-found' if nofail else ''))
